@@ -51,7 +51,7 @@ static std::string exec_cli(std::vector<std::string> args, const std::string &ou
   return o;
 }
 
-struct Fixture { Bytes plain2, file2, tampered, badhdr, plainA, plainB, plain4, file4, plain1, file1; std::string pA, pAenc, pOut, pDec; };
+struct Fixture { Bytes plain2, file2, tampered, badhdr, plainA, plainB, plain4, file4, plain1, file1, fileK2; unsigned char key2[16]; std::string pA, pAenc, pOut, pDec; };
 static Fixture FX;
 static void make_fixture() {
   FX.plain2 = fo::content(3, 2 * S + 7); // every block ends in a byte that looks like PKCS#7 padding
@@ -62,6 +62,8 @@ static void make_fixture() {
   FX.plainB = fo::content(4, 5 * S + 3);
   FX.plain4 = fo::content(3, 9 * S + 16);
   FX.file4 = ref::encrypt(FX.plain4, KEY, 2, 1, fo::cstr_seed("f4"), 4, S);
+  memcpy(FX.key2, KEY, 16); FX.key2[5] ^= 0x40; FX.key2[15] ^= 0x01; // a second key: same first bytes (0x00 first), differs later
+  FX.fileK2 = ref::encrypt(FX.plain2, FX.key2, 1, 0, fo::cstr_seed("k2"), 2, S);
   FX.plain1 = fo::content(3, 3 * S);
   FX.file1 = ref::encrypt(FX.plain1, KEY, 3, 2, fo::cstr_seed("f1"), 1, S);
 }
@@ -75,8 +77,8 @@ static void make_files() { // per-process files for the command-line operations
 static void remove_files() { for (auto p : {FX.pA, FX.pAenc, FX.pOut, FX.pDec}) unlink(p.c_str()); rmdir(TMP.c_str()); }
 
 static const char *OPN[] = {"enc(T=1,n=0)", "enc(T=4,multi-chunk,CTR,md5)", "enc(T=16,n=40)", "dec(valid,T=2)", "dec(tampered)", "dec(wrong key)", "dec(mode byte out of range)", "verify(valid)", "verify(tampered)",
-                            "cli -e -i F -k K --cmode 1 -o O", "cli -e -d (two modes)", "cli -edv (fails inside a cluster)", "cli -d -i F.enc -k K -o O", "cli -v -i F.enc -k K", "cli -n -e (no input)", "cli --cmode 9 -e -i F", "dec(valid,T=4,10 chunks,pad-like)", "dec(valid,T=1,4 chunks,pad-like)"};
-static const int NOPS = 18;
+                            "cli -e -i F -k K --cmode 1 -o O", "cli -e -d (two modes)", "cli -edv (fails inside a cluster)", "cli -d -i F.enc -k K -o O", "cli -v -i F.enc -k K", "cli -n -e (no input)", "cli --cmode 9 -e -i F", "dec(valid,T=4,10 chunks,pad-like)", "dec(valid,T=1,4 chunks,pad-like)", "enc(second key,T=2)", "dec(valid file of the second key,T=2)"};
+static const int NOPS = 20;
 static std::string do_op(int op) {
   unsigned char wrong[16];
   memcpy(wrong, KEY, 16);
@@ -99,6 +101,8 @@ static std::string do_op(int op) {
   case 14: return exec_cli({"wencry", "-n", "-e"}, "", {});
   case 15: return exec_cli({"wencry", "--cmode", "9", "-e", "-i", FX.pA}, "", {});
   case 16: { fo::OpResult r = fo::wc_decrypt(FX.file4, KEY, 4); return std::string("ret=") + (r.ret ? "1" : "0") + ",out=" + dig(r.out); }
+  case 18: { fo::OpResult r = fo::wc_encrypt(FX.plainB, FX.key2, 1, 2, "s18", 2); return std::string("ret=") + (r.ret ? "1" : "0") + ",out=" + dig(r.out); }
+  case 19: { fo::OpResult r = fo::wc_decrypt(FX.fileK2, FX.key2, 2); return std::string("ret=") + (r.ret ? "1" : "0") + ",out=" + dig(r.out); }
   case 17: { fo::OpResult r = fo::wc_decrypt(FX.file1, KEY, 1); return std::string("ret=") + (r.ret ? "1" : "0") + ",out=" + dig(r.out); }
   }
   return "?";
